@@ -134,10 +134,11 @@ func checkTokens(w []byte, a *ref.PDA) (string, bool, string, string) {
 func c13(r *eng.Run) {
 	K := r.Pick(1, 2)
 	sp := e1Spec{
-		entry:  "NextToken/ReadNull/ReadBool",
-		probe:  func(w []byte) { rjson.ReadNull(w) },
-		probes: []func([]byte){func(w []byte) { rjson.ReadBool(w) }},
-		check:  checkTokens,
+		handWritten: true,
+		entry:       "NextToken/ReadNull/ReadBool",
+		probe:       func(w []byte) { rjson.ReadNull(w) },
+		probes:      []func([]byte){func(w []byte) { rjson.ReadBool(w) }},
+		check:       checkTokens,
 		// whitespace prefixes and the literal machines are expanded; numbers, strings and
 		// containers are visited (their first bytes, as children) but explored by their own
 		// properties
